@@ -6,7 +6,7 @@ import (
 
 	"github.com/kardiachain/go-kardia/kai/state"
 	"github.com/kardiachain/go-kardia/kai/state/snapshot"
-	"github.com/kardiachain/go-kardia/kai/storage/memorydb"
+	"github.com/kardiachain/go-kardia/kai/kaidb/memorydb"
 	"github.com/kardiachain/go-kardia/lib/common"
 )
 
